@@ -431,6 +431,11 @@ func driver(args []string) int {
 	if np := tot.Probes["reference_panicked"] + tot.Probes["panic"]; tot.Cases > 0 && np*50 > tot.Cases {
 		fmt.Printf("note: the library panicked in %d of %d generated cases (valid inputs by construction); those cases are compared on panic-ness only, so this run says little about them\n", np, tot.Cases)
 	}
+	// vacuity: runs that did not finish (step budget, deadlock or stall among simulated
+	// primitives) give no verdict; many of them mean the run says little
+	if nc := tot.Probes["runs_cut_short_by_step_budget"]; tot.Evaluations > 0 && nc*50 > tot.Evaluations {
+		fmt.Printf("note: %d of %d library executions did not finish (step budget exceeded, or deadlock / stall among simulated primitives) and gave no verdict\n", nc, tot.Evaluations)
+	}
 	if inv := loadInventory(f.inv); inv != nil && len(tot.APICovered) > 0 {
 		covered := map[string]bool{}
 		for _, a := range tot.APICovered {
